@@ -51,7 +51,8 @@ def run_tests(repo, tests, keep_output=True):
                 r = subprocess.run(['cargo', 'test', '--offline'] + prof + ['--test', 'witness', '--', '--exact', t, '--nocapture'],
                                    cwd=dst, env=env, stdout=subprocess.PIPE, stderr=subprocess.STDOUT, text=True, timeout=900)
                 ran = re.search(r'running 1 test', r.stdout) is not None
-                outs.append('[profile %s]\n' % (prof or ['debug'])[0] + r.stdout[-2500:])
+                pm = re.search(r"thread '[^']*'[^\n]*panicked at[^\n]*\n[^\n]*(\n[^\n]*)?", r.stdout)
+                outs.append('[profile %s]\n' % (prof or ['debug'])[0] + ((pm.group(0) + '\n...\n') if pm else '') + r.stdout[-1200:])
                 if not ran:
                     verdict = None
                     break
